@@ -28,6 +28,17 @@ def lane_task(t):
         r = A.logsoftmax(x, axis=ax)
     elif fn == "softmax_crossentropy":
         r = LS.softmax_crossentropy(x, np.array(t["labels"]))
+    elif fn == "norm":
+        r = mg.linalg.norm(x, ord=t.get("ord"), axis=ax, keepdims=t.get("keepdims", False))
+    elif fn == "batchnorm":
+        from mygrad.nnet.layers import batchnorm
+        gamma = mg.tensor(np.array(t["gamma"], dtype=np.float64)) if t.get("gamma") is not None else None
+        beta = mg.tensor(np.array(t["beta"], dtype=np.float64)) if t.get("beta") is not None else None
+        r = batchnorm(x, gamma=gamma, beta=beta, eps=t["eps"])
+        g = np.array(t["g"], dtype=np.float64).reshape(r.shape)
+        r.backward(g)
+        return {"out_shape": list(r.shape), "out": r.data.ravel().tolist(), "grad": x.grad.ravel().tolist(),
+                "gamma_grad": None if gamma is None else gamma.grad.ravel().tolist(), "beta_grad": None if beta is None else beta.grad.ravel().tolist()}
     else:
         raise ValueError(fn)
     g = np.array(t["g"], dtype=np.float64).reshape(r.shape)
